@@ -88,13 +88,14 @@ def close_handler(h):
             pass
 
 
-EVENTS = ['update', 'update', 'update_big', 'update_error', 'open', 'send_open', 'rr', 'notification', 'conn_lost', 'conn_failed', 'keepalive', 'update_bytes', 'open_none',
+EVENTS = ['update', 'update', 'update_big', 'update_huge', 'update_error', 'open', 'send_open', 'rr', 'notification', 'conn_lost', 'conn_failed', 'keepalive', 'update_bytes', 'open_none',
           'update_tuplekey', 'update_selfref', 'update_object']
 
 
 def payload(kind, rng):
-    if kind in ('update', 'update_big'):
-        n = 1 if kind == 'update' else 40
+    if kind in ('update', 'update_big', 'update_huge'):
+        # update_huge: what an UPDATE near the 4096-octet maximum decodes to - a record of 15-25 KB
+        n = 1 if kind == 'update' else 40 if kind == 'update_big' else rng.choice([700, 1000])
         return {'attr': {1: 0, 2: [(2, [65002, rng.randint(1, 65535)])], 3: '10.0.0.2'}, 'nlri': ['10.%d.%d.0/24' % (rng.randrange(256), i) for i in range(n)],
                 'withdraw': [], 'afi_safi': 'ipv4'}
     if kind == 'update_bytes':
@@ -123,7 +124,7 @@ def fire(h, kind, rng, peer):
     # events arrive whole seconds or fractions of a second apart (file names are made from the clock)
     reactor._now += rng.choice(CUR['step'])
     t = 1700000000.0 + reactor._now
-    if kind in ('update', 'update_big', 'update_bytes', 'update_tuplekey', 'update_selfref', 'update_object'):
+    if kind in ('update', 'update_big', 'update_huge', 'update_bytes', 'update_tuplekey', 'update_selfref', 'update_object'):
         h.update_received(peer, t, payload(kind, rng))
     elif kind == 'update_error':
         h.on_update_error(peer, t, payload(kind, rng))
@@ -293,7 +294,7 @@ def run_shard(sh):
                         continue
                     res['counters'][{'clean': 'clean_restarts', 'torn': 'torn_tail_restarts', 'empty-newest': 'empty_newest_restarts'}[cp]] += 1
                     try:
-                        for ev2 in ('update', 'notification'):
+                        for ev2 in (('update', 'notification') if (hi + k) % 4 else ('update_huge', 'notification')):
                             fire(h2, ev2, rng, peer)
                     except Exception as e:
                         bad('callback-raised', cfeats, 'after a %s crash and restart the callback raised %r' % (cp, e), crep)
